@@ -124,6 +124,14 @@ def oracle(case, io, mo):
     # trajectories as the only non-neutral tempi (at most one per path, every constant tempo 60): every leaf below a
     # trajectory node lasts what tempo conversion with that node's tempo gives it (its span counted from the node's
     # start), every other leaf keeps its length - wherever in the tree the node sits
+    # ... and for constants and ONE trajectory on the path in any arrangement: the product of the curves on the path
+    for k, (ws, got) in enumerate(zip(expected_any_nesting(case[1]), res)):
+        if ws is None:
+            continue
+        want, steep = ws
+        if abs(got - want) > 2e-5 * steep ** 4 * max(1.0, abs(want)) + 1e-9:
+            return (f"leaf {k} lasts {got!r}; the integral over its beats of the product of 60/bpm of all tempo-carrying nodes on its "
+                    f"path (each curve counted from its node's start) is {want!r}")
     t = case[1]
     consts_neutral = all(all(fl(tp[1]) == 60 for tp in tps if tp[0] == "C") for _, tps in leaves)
     one_per_path = all(sum(1 for tp in tps if tp[0] == "J") <= 1 for _, tps in leaves)
@@ -152,6 +160,59 @@ def oracle(case, io, mo):
                 where = "outside every trajectory" if senv is None else "below a trajectory node"
                 return f"single tempo node: leaf over [{a}, {b}) ({where}) lasts {got!r}, tempo conversion with that node's tempo gives {want!r}"
     return None
+
+
+def expected_any_nesting(t):
+    """the full reading of the property for ANY assignment of tempi: a leaf over the beats [a, b) lasts the integral of the
+    product of 60 / bpm over all tempo-carrying nodes on its path, each node's curve running from that node's start.
+    Composite Simpson, split at every control point of every trajectory on the path.  Returns [(seconds, steepness)]."""
+    from props.m2common import ref_value_at
+    out = []
+
+    def walk(n, off, const, envs):
+        tp = n[2] if n[0] == "L" else n[1]
+        if tp[0] == "J":
+            envs = envs + [(sec_env(["T"] + tp[1:]), off, max([abs(fl(p[2])) for p in tp[1:]] + [1]))]
+        else:
+            const = const * 60.0 / fl(tp[1])
+        if n[0] == "L":
+            a, b = off, off + int(n[1])
+            cuts = {a, b}
+            for (env, start, _) in envs:
+                tt = 0
+                for p in env[1:]:
+                    if a < start + tt < b:
+                        cuts.add(start + tt)
+                    tt += int(p[0])
+            cuts = sorted(cuts)
+            tot = 0.0
+            for u, v in zip(cuts, cuts[1:]):
+                m = 16
+                h = (v - u) / m
+                ys = []
+                for i in range(m + 1):
+                    x = u + i * h
+                    if i == 0:
+                        x = u + min(1, (v - u) / 4)
+                    if i == m:
+                        x = v - min(1, (v - u) / 4)
+                    y = 1.0
+                    for (env, start, _) in envs:
+                        y *= ref_value_at(env, x - start)
+                    ys.append(y)
+                tot += (ys[0] + ys[-1] + 4 * sum(ys[1:-1:2]) + 2 * sum(ys[2:-1:2])) * (h / TICK) / 3
+            # two trajectories on one path: the implementation re-times the inner trajectory's control points through the
+            # outer conversion (the interpolation between them is not the exact composition); the property does not decide it
+            out.append((const * tot, max([s_ for (_, _, s_) in envs] + [1])) if len(envs) <= 1 else None)
+            return
+        o = off
+        for c in n[2:]:
+            walk(c, o, const, envs)
+            if n[0] == "S":
+                o += tdur(c)
+
+    walk(t, 0, 1.0, [])
+    return out
 
 
 def spans_t(t, off=0):
